@@ -92,7 +92,7 @@ fn base_and_reported(strains: &Strains, attrs: &DifficultyAttributes, bits: u32)
     }
 }
 
-fn case(t: &mut Tape, info: &mut CaseInfo) -> Result<(), String> {
+pub fn case(t: &mut Tape, info: &mut CaseInfo) -> Result<(), String> {
     let mut prof = MapProfile::small(ALL_MODES, 50);
     prof.long_gaps = true;
     run(t, info, &prof, false)
@@ -108,6 +108,18 @@ fn case_long(t: &mut Tape, info: &mut CaseInfo) -> Result<(), String> {
 }
 
 fn run(t: &mut Tape, info: &mut CaseInfo, prof: &MapProfile, long: bool) -> Result<(), String> {
+    run_with(t, info, prof, long, true)
+}
+
+/// The peak-list part of the oracle alone (finite, non-negative, equal lengths): what C11 needs to know about
+/// the lists that leave the library; the re-aggregation belongs to C16.
+pub fn case_lists_only(t: &mut Tape, info: &mut CaseInfo) -> Result<(), String> {
+    let mut prof = MapProfile::small(ALL_MODES, 50);
+    prof.long_gaps = true;
+    run_with(t, info, &prof, false, false)
+}
+
+fn run_with(t: &mut Tape, info: &mut CaseInfo, prof: &MapProfile, long: bool, reaggregate: bool) -> Result<(), String> {
     let c = gen_map_case(t, info, prof, &DiffProfile::realistic().passed(0), false);
     if info.want_sample {
         info.sample = Some(json!({"map": c.spec.sample(), "target": mode_name(c.target), "difficulty": c.dspec.describe()}));
@@ -150,6 +162,7 @@ fn run(t: &mut Tape, info: &mut CaseInfo, prof: &MapProfile, long: bool) -> Resu
     info.comparisons += 1;
     let bits = c.dspec.mods.bits;
     match (&strains, &attrs) {
+        _ if !reaggregate => {}
         (Strains::Taiko(_), DifficultyAttributes::Taiko(_)) => {}
         (Strains::Catch(_), DifficultyAttributes::Catch(_)) | (Strains::Mania(_), DifficultyAttributes::Mania(_)) | (Strains::Osu(_), DifficultyAttributes::Osu(_)) => {
             let (class, what) = match c.target {
